@@ -96,7 +96,7 @@ class TCPServer:
                 await self.idle_task.stop()
 
     async def _read_data(self) -> None:
-        while not self.reader.at_eof():
+        while True:
             try:
                 data = await asyncio.wait_for(self.reader.read(MAX_RECV), self.config.read_timeout)
             except (
@@ -108,7 +108,12 @@ class TCPServer:
             ):
                 break
             else:
+                # An empty read is the peer's EOF, which the protocol
+                # has to see however late this task gets to it (it
+                # answers a truncated request, for one).
                 await self.protocol.handle(RawData(data))
+                if data == b"":
+                    break
 
         await self.protocol.handle(Closed())
 
